@@ -244,7 +244,7 @@ func c07DecodeKV(c *Ctx) {
 			c.Undecided("R2", "decodeKV:result", p.InstrPos(r), "the returned pointer is not built by NewPointer")
 			continue
 		}
-		oidArg, sizeArg, extArg := np.Call.Args[0], np.Call.Args[1], np.Call.Args[2]
+		oidArg, sizeArg, extArg := LiveValue(np.Call.Args[0]), LiveValue(np.Call.Args[1]), LiveValue(np.Call.Args[2])
 		// version
 		vv := findCall("lfs.verifyVersion")
 		if vv == nil {
@@ -639,7 +639,7 @@ func c07Canonical(c *Ctx) {
 		return
 	}
 	c.OK("R4", "DecodeFrom:raw-bytes", p.InstrPos(raw.(ssa.Instruction)), "the prefix is filled with io.ReadFull and sliced to the bytes read")
-	isRaw := func(v ssa.Value) bool { return Unwrap(v) == raw }
+	isRaw := func(v ssa.Value) bool { return Unwrap(LiveValue(Unwrap(v))) == raw }
 	// stores to Pointer.Canonical program-wide
 	n := 0
 	for _, f := range p.RepoFuncs(productPkg) {
@@ -723,7 +723,7 @@ func emptyShortcutRule(c *Ctx, rule string) {
 		c.Undecided(rule, "DecodeFrom:empty-only-for-zero-bytes", p.Pos(fn.Pos()), "cannot identify the bytes read")
 		return
 	}
-	isRaw := func(v ssa.Value) bool { return Unwrap(v) == raw }
+	isRaw := func(v ssa.Value) bool { return Unwrap(LiveValue(Unwrap(v))) == raw }
 	n := 0
 	// the empty-pointer shortcut only for zero bytes read
 	for _, ci := range CallsIn(fn, "lfs.EmptyPointer") {
